@@ -145,6 +145,8 @@ class Stochastic(BigSMILESbase):
 
     def generate_string(self, extension):
         string = "{"
+        # The bond characters written in front of a terminal descriptor ('{=[$] ...') are part of it.
+        string += self.left_terminal.preceding_characters.strip()
         string += self.left_terminal.generate_string(extension)
         for token in self.repeat_tokens:
             string += token.generate_string(extension) + ", "
@@ -154,6 +156,7 @@ class Stochastic(BigSMILESbase):
             for token in self.end_tokens:
                 string += token.generate_string(extension) + ", "
             string = string[:-2]
+        string += self.right_terminal.preceding_characters.strip()
         string += self.right_terminal.generate_string(extension)
         string += "}"
         if self.distribution:
